@@ -18,6 +18,13 @@ META = dict(
     ])
 
 
+def fw_prod(xs):
+  r = 1
+  for x in xs:
+    r *= x
+  return r
+
+
 def red_table(rec):
   return '|'.join('%s:%s' % (H(d), M(b)) for d, b in rec) if rec else '-'
 
@@ -129,8 +136,63 @@ def correspondence(rep, rng, tier):
           tag=tag.rstrip('0123456789') + ':' + v[:4], canon=art.sort_model_verdict)
     if v.startswith('ok 0'):
       bd.add('chk.permuted_ds %s' % H(n), L([d for d, _ in calls]), tag='enum')
+  # enumeration of the denominators at every documented modulus size (cheap: 3x3 LLL each;
+  # random odd numbers are enough, the loops do not depend on n being a semiprime)
+  bitp = rs.CheckBitPatterns()
+  for bits in (1024, 1536, 2048, 3072, 4096) + ((1025, 2047, 8192) if tier == 'thorough' else ()):
+    n = 1
+    for _ in range(bits // 64):          # no small factors: every attempt fails, so the
+      n *= gen_rsa.rprime(rng, 64)       # full list of denominators is exercised
+    v, calls = run_with_recording(chk, n)
+    b.add('chk.permuted %s %s' % (H(n), red_table(calls)), v, tag='size%d:%s' % (bits, v[:4]),
+          canon=art.sort_model_verdict)
+    if v.startswith('ok 0'):
+      bd.add('chk.permuted_ds %s' % H(n), L([d for d, _ in calls]), tag='enum%d' % bits)
+    v, calls = run_with_recording(bitp, n)
+    if v.startswith('ok 0'):
+      bd.add('chk.bitpatterns_ds %s %s' % (H(n), L(list(range(1, 16, 2)) + [31, 63, 127, 255, 511] + [8, 16, 32, 64, 128, 256])),
+             L([d for d, _ in calls]), tag='enum-bitpatterns%d' % bits)
   rep.absorb(b, b.run())
   rep.absorb(bd, bd.run())
+
+  # ---------------- the Pollard product built by the constructor (default and user bounds)
+  import math
+  bp = Batch('chk.pm1_product')
+  be = Batch('chk.pm1_exps')
+  for bound in (None, 2**8, 2**10, 243, 1000, 3, 2):
+    try:
+      chkp = rs.CheckPollardpm1(bound)
+    except Exception as e:  # noqa
+      rep.notes.append('CheckPollardpm1(%r) raised %r' % (bound, e))
+      continue
+    primes = [int(x) for x in ntheory_util.Sieve(bound or 2**20)]
+    if bound:
+      exps = [int(math.log(bound, pp)) for pp in primes]
+    else:
+      exps = [int(math.log(2**64, pp)) for pp in primes[:150]]
+    doc = []
+    for pp in (primes if bound else primes[:150]):
+      e = 0
+      while pp ** (e + 1) <= (bound or 2**64):
+        e += 1
+      doc.append(e)
+
+    def pred(bound=bound, chkp=chkp, primes=primes, doc=doc):
+      m = 1
+      want = fw_prod([pp ** e for pp, e in zip(primes, doc)] + primes[len(doc):])
+      if int(chkp._m) != want:
+        q = want // math.gcd(want, int(chkp._m))
+        return ('CheckPollardpm1(%r): the product m differs from the documented one (missing factor %s...): '
+                'keys whose p-1 needs it are no longer flagged' % (bound, hex(q)[:40]))
+      return None
+    bp.add('chk.pm1_product %s %s' % (O(bound), L(exps)), H(int(chkp._m)), tag='bound=%s' % bound,
+           pred=pred, always=(exps == doc))
+    be.add('chk.pm1_exps %s' % O(bound), L(doc), tag='documented-exponents')
+    if exps != doc:
+      rep.notes.append('float int(math.log(bound, p)) differs from the exact floor log for bound=%r at primes %s'
+                       % (bound, [pp for pp, a, c in zip(primes, exps, doc) if a != c][:5]))
+  rep.absorb(bp, bp.run())
+  rep.absorb(be, be.run())
 
   # ---------------- CheckPollardpm1 with user bounds (default product is 1.5 Mbit: thorough only)
   b = Batch('chk.pm1')
@@ -175,7 +237,7 @@ def correspondence(rep, rng, tier):
   b = Batch('chk.lhw')
   chk = rs.CheckLowHammingWeight()
   lw = []
-  for bits in (64, 96, 128):
+  for bits in (64, 96, 128, 512, 1024):
     for wt in (3, 4, 6):
       for _ in range(reps):
         lw.append(('lowweight', gen_rsa.low_weight_prime(rng, bits // 2, wt) *
@@ -183,6 +245,9 @@ def correspondence(rep, rng, tier):
     p, q = gen_rsa.semiprime(rng, bits)
     lw.append(('healthy', p * q))
     lw.extend(gen_rsa.degenerate(rng, bits))
+    for lead in (2, 5, 8):
+      lw.append(('leadingones', gen_rsa.leading_ones_prime(rng, bits // 2, lead, 3) *
+                 gen_rsa.leading_ones_prime(rng, bits // 2, lead, 3)))
     lw.append(('unbalanced', gen_rsa.low_weight_prime(rng, bits // 2 - 8, 3) *
                gen_rsa.low_weight_prime(rng, bits // 2 + 8, 3)))
   real_lhw = rsa_util.CheckLowHammingWeight
